@@ -340,10 +340,18 @@ def leaves(values):
 
 # ------------------------------------------------------------------------------------------------------------------ items
 class Loop:
-    __slots__ = ("kind", "test", "items", "carry", "frame", "node", "exits", "entry")
+    __slots__ = ("kind", "test", "items", "carry", "frame", "node", "exits", "entry", "guard", "ph")
 
-    def __init__(self, kind, test, items, carry, frame, node, entry):
+    def __init__(self, kind, test, items, carry, frame, node, entry, guard=(), ph=None):
         self.kind, self.test, self.items, self.carry, self.frame, self.node, self.entry = kind, test, items, carry, frame, node, entry
+        self.guard = guard            # path condition under which the loop is reached
+        self.ph = ph or {}            # local name -> placeholder
+
+    def entry_test(self):
+        """the loop condition on first entry (placeholders replaced by the values the locals enter the loop with)"""
+        mapping = [(p, self.entry.get(nm)) for nm, p in self.ph.items()
+                   if not is_unknown(p) and self.entry.get(nm) is not None and not is_unknown(self.entry.get(nm)) and not isinstance(self.entry.get(nm), tuple)]
+        return renamer(mapping)(self.test)
 
 
 def tidy(items):
@@ -433,6 +441,82 @@ def same_items(a, b, whole_values=True, why=None):
     return True
 
 
+def truth_of(v):
+    """True / False when a (normalised) test formula is decided by constants, else None"""
+    if v is None or is_unknown(v) or isinstance(v, tuple):
+        return None
+    v = norm(v, whole_values=False)
+    if v.is_const():
+        return v.const_value() != 0
+    p = fn_parts(v)
+    if p is None:
+        return None
+    if p[0] == "ge0" and p[1][0].is_const():
+        return p[1][0].const_value() >= 0
+    if p[0] == "eq0":
+        d = p[1][0]
+        if d.is_const():
+            return d.const_value() == 0
+        # two different text literals are different
+        terms = list(d.n.t.items()) if d.d.is_const() else []
+        if len(terms) == 2 and all(len(m) == 1 and m[0][1] == 1 and F.atom_desc(m[0][0])[0] == "s" and F.atom_desc(m[0][0])[1][:1] in "'\""
+                                   for m, _c in terms) and terms[0][1] == -terms[1][1]:
+            return False
+    if p[0] == "not":
+        t = truth_of(p[1][0])
+        return None if t is None else not t
+    if p[0] in ("bool:And", "bool:Or"):
+        ts = [truth_of(a) for a in p[1]]
+        if p[0] == "bool:And":
+            return False if any(t is False for t in ts) else (True if all(t is True for t in ts) else None)
+        return True if any(t is True for t in ts) else (False if all(t is False for t in ts) else None)
+    return None
+
+
+def settle(v):
+    """selections whose condition is decided by constants are taken (after a substitution of concrete values)"""
+    def post(name, args):
+        if name == "phi" and len(args) == 3:
+            t = truth_of(args[0])
+            if t is not None:
+                return args[1] if t else args[2]
+        if name == "odd" and len(args) == 1 and not isinstance(args[0], str) and args[0].is_const() and args[0].const_value().denominator == 1:
+            return F.const(int(args[0].const_value()) & 1)
+        return None
+    return rewrite(v, post=post)
+
+
+def _canon_carried(lp):
+    """a loop-carried local that is only tested (not used in the body's consumption) and is overwritten in every iteration by a value that
+    does not depend on loop-carried locals is named by that value: the value it *enters* the loop with then matters only through the
+    truth of the loop condition on first entry (compared separately), so `dtype = 1` and `dtype = 2` before `while dtype > 0` are the same"""
+    used = []
+
+    def scan_items(items):
+        for it in items:
+            if it[0] in ("B", "L", "abs"):
+                used.extend(walk_atoms(it[1]))
+            elif it[0] == "if":
+                used.extend(walk_atoms(it[1]))
+                scan_items(it[2])
+                scan_items(it[3])
+            elif it[0] == "loop":
+                used.extend(walk_atoms(it[1].test))
+                scan_items(it[1].items)
+                for _p, v in it[1].carry:
+                    used.extend(walk_atoms(v))
+    scan_items(lp.items)
+    mapping = []
+    for p, v in lp.carry:
+        if v is None or is_unknown(v) or isinstance(v, tuple):
+            continue
+        own = any(d[0] == "fn" and d[1] == "lv" and _arg(d[2][0]).equals(lp.frame) for d in walk_atoms(v))
+        if own or as_atom(p) in used:
+            continue
+        mapping.append((p, F.fn("lvu", lp.frame, v)))
+    return map_loop(lp, renamer(mapping)) if mapping else lp
+
+
 def same_loops(l1, l2, whole_values=True, why=None):
     def no(msg):
         if why is not None and not why:
@@ -440,6 +524,11 @@ def same_loops(l1, l2, whole_values=True, why=None):
         return False
     if l1.kind != l2.kind:
         return no(f"{l1.kind} loop vs {l2.kind} loop")
+    e1, e2 = l1.entry_test(), l2.entry_test()
+    t1, t2 = truth_of(e1), truth_of(e2)
+    if not ((t1 is not None and t1 == t2) or same(e1, e2, whole_values)):
+        return no(f"loop condition on entry {norm(e1)!r}  vs  {norm(e2)!r}")
+    l1, l2 = _canon_carried(l1), _canon_carried(l2)
     if not same(l1.test, l2.test, whole_values):
         return no(f"loop condition {norm(l1.test)!r}  vs  {norm(l2.test)!r}")
     if not same_items(l1.items, l2.items, whole_values, why):
@@ -485,8 +574,10 @@ def map_items(items, f):
 
 
 def map_loop(lp, f):
-    new = Loop(lp.kind, f(lp.test), map_items(lp.items, f), [(f(p), v if v is None or is_unknown(v) else f(v)) for p, v in lp.carry],
-               f(lp.frame), lp.node, lp.entry)
+    fm = lambda v: v if v is None or is_unknown(v) else f(v)   # noqa
+    new = Loop(lp.kind, f(lp.test), map_items(lp.items, f), [(f(p), fm(v)) for p, v in lp.carry],
+               f(lp.frame), lp.node, {k: fm(v) for k, v in lp.entry.items()}, tuple((fm(c), pol) for c, pol in lp.guard),
+               {k: fm(v) for k, v in lp.ph.items()})
     new.exits = lp.exits
     return new
 
@@ -589,6 +680,7 @@ class CEval(AutoEvaluator):
     def _assign(self, target, v, st, aug=False):
         if isinstance(target, ast.Name) and target.id in self.buffers:
             self.walker.all_inits.append((target.id, v, st))
+            self.walker.init_guards[id(st)] = self.walker.guard
         return super()._assign(target, v, st, aug)
 
     def _ev(self, node):
@@ -668,6 +760,9 @@ class CEval(AutoEvaluator):
             if c is False:
                 return self._ev(node.orelse)
             cv = self._ev(node.test)
+            t = truth_of(cv)
+            if t is not None:
+                return self._ev(node.body if t else node.orelse)
             n0 = len(self.walker.frame.items)
             a, b = self._ev(node.body), self._ev(node.orelse)
             if len(self.walker.frame.items) != n0:
@@ -723,6 +818,7 @@ class Walker:
         self.spans = {}           # id(followed FunctionDef) -> (frame id, loops of that frame before the call, after the call)
         self._cells = []          # subscript stores of followed callees
         self.all_inits = []       # (buffer name, creating value, statement)
+        self.init_guards = {}     # id(statement) -> guard under which a buffer was (re)bound
         cache = ctx.__dict__.setdefault("_c11_tables_fx", {})
         if (rel, cls) not in cache:
             tb = _method_table(ctx, rel, cls)
@@ -937,6 +1033,9 @@ class Walker:
         cv = ev.ev(st.test)
         if isinstance(cv, tuple):
             cv = Unknown("test on a tuple")
+        t = truth_of(cv)
+        if t is not None:
+            return self.run(st.body if t else st.orelse)
         env0 = dict(ev.env)
         e0 = len(self.events)
         g0 = self.guard
@@ -1098,7 +1197,7 @@ class Walker:
             self.guard = g0
             breaks = self._breaks.pop()
         carry = [(p, ev.env.get(nm)) for nm, p in ph.items() if not is_unknown(p)]
-        lp = Loop("while", test, fr.items, carry, fid, st, entry)
+        lp = Loop("while", test, fr.items, carry, fid, st, entry, g0, ph)
         lp.exits = status
         if is_unknown(test):
             raise Stuck(f"loop condition at line {st.lineno} cannot be lowered ({test.why})")
@@ -1168,7 +1267,7 @@ class Walker:
             test = F.fn("count", need(n)) if n is not None and not is_unknown(n) else itv
             if test is None or is_unknown(test):
                 raise Stuck(f"`for` at line {st.lineno} consumes from the file over an iterable that cannot be lowered")
-            lp = Loop("for", test, fr.items, carry, fid, st, entry)
+            lp = Loop("for", test, fr.items, carry, fid, st, entry, self.guard, ph)
             lp.exits = status
             parent.items.append(("loop", lp))
             parent.opaque()
@@ -1300,6 +1399,8 @@ class Walker:
             if name in self.extra_inline or f2 in self.effects or _is_getter(f2):
                 target = f2
         if target is not None:
+            if id(node) in self.indirect and isinstance(func, ast.Name):
+                self.events.append(("dispatch", ev.env.get(func.id), node))
             return self.inline(target, node, ev, name)
         pos, kws = self._args(node, ev)
         callee = ev.env.get(func.id) if isinstance(func, ast.Name) else None
